@@ -46,6 +46,13 @@ def chain_reg(tier):
               fine_reg=True)
 
 
+def final_stops(tier):
+    """close(); stop() and a second stop() from another thread while a backlog is being reduced:
+    whichever stop() returns, the state read afterwards is the final one"""
+    progs = [{"c1": [D(1), D(2, "trait")], "c2": [O("close"), O("stop"), O("get_state")], "c3": [O("stop"), O("get_state")]}]
+    return _i("final_stops", progs, {1: 0, 2: 1}, cap=1, red_script={"r1": {0: red("D"), 1: red("K")}})
+
+
 def order(tier, pol, cap=1):
     """order of dispatches incl. a follow-up action (Effect::Action) and, in the thorough tier, a thunk"""
     rs = {"r1": {0: red("D"), 1: red("D", eff("act", 9))}}
@@ -148,6 +155,15 @@ def life(tier, kind="direct", pol="block", dpol="block", dcap=2):
               "c2": [D(1), D(2)] + ([D(3)] if tier != "quick" else []) + STOP}]
     return _i("life_%s_%s%s" % (kind, pol, "" if dpol == "block" else "_d" + dpol), progs, acts, cap=dcap, pol=dpol,
               subs={"s1": {"kind": kind, "cap": 1, "pol": pol}, "s2": {"kind": "direct"}})
+
+
+def life_reuse(tier):
+    """a subscription handle outlives its subscriber: after unsubscribe() another subscriber is
+    registered (by the same thread, so it may well get the released one's address) and the old
+    handle is used again - which must do nothing"""
+    progs = [{"c1": [S("add_sub", "s1"), S("unsub", "s1"), S("add_sub", "s2"), S("unsub", "s1")],
+              "c2": [D(1), D(2)] + STOP}]
+    return _i("life_reuse", progs, {1: 0, 2: 0}, cap=2, subs={"s1": {"kind": "direct"}, "s2": {"kind": "direct"}})
 
 
 def dup_sub(tier):
@@ -431,10 +447,12 @@ def table(pid, tier):
     q = tier == "quick"
     T = {}
     if pid == "C01":
-        a, b, c = disp(tier, "block", 1), disp(tier, "block", 2), chain_reg(tier)
+        a, b, c, e = disp(tier, "block", 1), disp(tier, "block", 2), chain_reg(tier), final_stops(tier)
         inv = ["C01_Fold", "C01_ExactlyOnce", "C01_Threaded", "C02_ReduceOrder", "C08_Valid", "C07_Registered"]
-        T = dict(mc=[(a, inv, ["C01_FinalAfterStop"]), (c, inv, [])] + ([] if q else [(b, inv, ["C01_FinalAfterStop"])]),
-                 gen=[(a, 1000 if q else 20000), (c, 500 if q else 20000)], free=[(b, 150 if q else 1500), (c, 60 if q else 600)])
+        T = dict(mc=[(a, inv, ["C01_FinalAfterStop"]), (c, inv, []), (e, inv, ["C01_FinalAfterStop"])] +
+                 ([] if q else [(b, inv, ["C01_FinalAfterStop"])]),
+                 gen=[(a, 900 if q else 20000), (c, 400 if q else 20000), (e, 400 if q else 20000)],
+                 free=[(b, 150 if q else 1500), (c, 60 if q else 600), (e, 40 if q else 600)])
     elif pid == "C02":
         insts = [order(tier, p) for p in ("block", "oldest", "latest")] + [deep_queue("oldest"), deep_queue("latest"),
                                                                           mw_dispatch("block")]
@@ -481,18 +499,19 @@ def table(pid, tier):
         insts = [life(tier, "direct"), life(tier, "chan"), life(tier, "direct", "block", "latest", 1)] + \
             ([] if q else [life(tier, "sel"), life(tier, "chan", "oldest"), life(tier, "chan", "block", "oldest", 1)])
         inv = ["C09_Notified", "C09_SilentAfter", "C09_SilentAfter_strict", "C09_ReleasedAtMostOnce", "C09_Released", "C03_Stream"]
-        dup = dup_sub(tier)
+        dup, reuse = dup_sub(tier), life_reuse(tier)
         dinv = ["C09_Notified", "C09_SilentAfter", "C09_ReleasedAtMostOnce", "C09_Released", "C09_DupStream"]
-        T = dict(mc=[(i, inv, []) for i in insts] + [(dup, dinv, [])],
-                 gen=[(i, 600 if q else 10000) for i in insts[:3]] + [(dup, 300 if q else 10000)],
-                 free=[(i, 60 if q else 500) for i in insts] + [(dup, 40 if q else 500)],
+        T = dict(mc=[(i, inv, []) for i in insts] + [(dup, dinv, []), (reuse, inv, [])],
+                 gen=[(i, 500 if q else 10000) for i in insts[:3]] + [(dup, 300 if q else 10000), (reuse, 300 if q else 10000)],
+                 free=[(i, 50 if q else 500) for i in insts] + [(dup, 40 if q else 500), (reuse, 40 if q else 500)],
                  strict=[])
     elif pid == "C10":
-        insts = [chan(tier, "block", 1, True), chan(tier, "oldest", 1, False), chan_default(tier)] + \
+        insts = [chan(tier, "block", 1, True), chan(tier, "oldest", 1, False), chan_default(tier),
+                 life(tier, "chan", "block", "latest", 1)] + \
             ([] if q else [chan(tier, "latest", 1, True), chan(tier, "block", 2, False), chan(tier, "oldest", 2, True)])
         inv = ["C10_OwnThread", "C10_Stream", "C10_Flush", "C10_NoStall", "C05_Bound"]
-        T = dict(mc=[(i, inv, []) for i in insts], gen=[(i, 700 if q else 10000) for i in insts[:3]],
-                 free=[(i, 60 if q else 500) for i in insts],
+        T = dict(mc=[(i, inv, []) for i in insts], gen=[(i, 550 if q else 10000) for i in insts[:4]],
+                 free=[(i, 50 if q else 500) for i in insts],
                  live=[(insts[0], ["Live_ClientsDone", "Live_StopReturns"])])      # unsubscribe() and stop() return
     elif pid == "C11":
         insts = [effects(tier, 0), effects(tier, 4), effects(tier, 5), effects(tier, 1), effects(tier, 3)] + \
